@@ -41,7 +41,8 @@ RetDrift(e, p) ==
   \cup { c \in {"M:ItersIsM"}    : ~p.bzero /\ e.iters # m }
   \cup { c \in {"M:ConvergedIsLastBelowTol"} : ~p.bzero /\ pc = "test" /\ e.converged # (last < p.tol_lg) }
   \cup { c \in {"M:ZeroRhsNoCycle"} : p.bzero /\ m # 0 }
-  \cup { c \in {"M:GradeCycles"} : ~p.bzero /\ p.tol_lg <= Floor + 640 /\ p.cap = NoCap /\ p.geff > 0 /\ e.iters # p.geff }
+  \cup { c \in {"M:GradeCycles"} : ~p.bzero /\ p.tol_lg <= Floor + 640 /\ p.cap = NoCap /\ p.geff > 0 /\ p.condA_lg <= 256   \* exact-arithmetic statement: well-conditioned systems only
+                                  /\ e.iters # p.geff }
 
 Bad(e) ==
   CASE e.ev = "Start"  -> {}
